@@ -660,11 +660,11 @@ getbit(const uint8_t *p, size_t i)
 /* expectation for a bit-offset stream cipher call: out bits [off, off+n) = in bits [off, off+n) ^ ks bits [0, n); every
  * other bit of out keeps its previous value. ks = keystream obtained by encrypting zeros with the reference. */
 static int
-bit_expect_ok(const uint8_t *in, const uint8_t *out, const uint8_t *out_before, const uint8_t *ks, size_t off, size_t n, size_t total_bytes)
+bit_expect_ok(const uint8_t *in, const uint8_t *out, const uint8_t *out_before, const uint8_t *ks, size_t off, size_t n, size_t total_bytes, int tail_free)
 {
         for (size_t i = 0; i < total_bytes * 8; i++) {
-                if (off == 0 && i >= n)
-                        break; /* byte-aligned start: the library rewrites the whole last byte; its trailing bits are not part of the result */
+                if (tail_free && off == 0 && i >= n)
+                        break; /* SNOW3G, byte-aligned start: the whole last byte is rewritten; its trailing bits are not part of the result */
                 int e = (i >= off && i < off + n) ? (getbit(in, i) ^ getbit(ks, i - off)) : getbit(out_before, i);
                 if (getbit(out, i) != e)
                         return 0;
@@ -693,21 +693,37 @@ t_bit_level(void)
                         ref_snow3g_uea2(KEY[0], iv, zeros, ks, bits);
                         GUARDED("snow3g-f8-1-buffer-bit", CALLN("snow3g_f8_1_buffer_bit", m->snow3g_f8_1_buffer_bit, A(&sk), A(iv), A(in), A(out), A(bits), A(off)));
                         n_eval++;
-                        if (!bit_expect_ok(in, out, before, ks, off, bits, tb))
+                        if (!bit_expect_ok(in, out, before, ks, off, bits, tb, 1))
                                 viol("snow3g-f8-1-buffer-bit", "output-differs", "bits [off, off+len) must be in ^ keystream and every other bit of dst unchanged (x = bits, y = offset)", bits, off);
-                        /* KASUMI (offset documented for the input buffer; exercised at offset 0 only for the output position) */
-                        if (off == 0) {
+                        /* KASUMI: same convention, trailing bits of the last byte preserved at every offset */
+                        {
                                 uint64_t kiv;
                                 memcpy(&kiv, iv, 8);
-                                in = inbuf(1, tb, 9300 + bits);
+                                in = inbuf(1, tb, 9300 + bits * 8 + off);
                                 out = outbuf(1, tb);
                                 fill_rand(out, tb, 9400 + bits);
                                 memcpy(before, out, tb);
                                 ref_kasumi_f8(KEY[0], iv, zeros, ks, bits);
-                                GUARDED("kasumi-f8-1-buffer-bit", CALLN("kasumi_f8_1_buffer_bit", m->f8_1_buffer_bit, A(&k8), kiv, A(in), A(out), A(bits), A(0)));
+                                GUARDED("kasumi-f8-1-buffer-bit", CALLN("kasumi_f8_1_buffer_bit", m->f8_1_buffer_bit, A(&k8), kiv, A(in), A(out), A(bits), A(off)));
                                 n_eval++;
-                                if (!bit_expect_ok(in, out, before, ks, 0, bits, tb))
-                                        viol("kasumi-f8-1-buffer-bit", "output-differs", "first len bits must be in ^ keystream, the remaining bits of the last byte unchanged (x = bits)", bits, 0);
+                                if (!bit_expect_ok(in, out, before, ks, off, bits, tb, 0))
+                                        viol("kasumi-f8-1-buffer-bit", "output-differs", "bits [off, off+len) must be in ^ keystream and every other bit of dst unchanged (x = bits, y = offset)", bits, off);
+                                /* in place */
+                                uint8_t *io = outbuf(2, tb);
+                                fill_rand(io, tb, 9450 + bits * 8 + off);
+                                memcpy(before, io, tb);
+                                GUARDED("kasumi-f8-1-buffer-bit", CALLN("kasumi_f8_1_buffer_bit", m->f8_1_buffer_bit, A(&k8), kiv, A(io), A(io), A(bits), A(off)));
+                                n_eval++;
+                                if (!bit_expect_ok(before, io, before, ks, off, bits, tb, 0))
+                                        viol("kasumi-f8-1-buffer-bit", "output-differs", "in place: bits [off, off+len) must be in ^ keystream and every other bit unchanged (x = bits, y = offset)", bits, off);
+                                io = outbuf(2, tb);
+                                fill_rand(io, tb, 9460 + bits * 8 + off);
+                                memcpy(before, io, tb);
+                                ref_snow3g_uea2(KEY[0], iv, zeros, ks, bits);
+                                GUARDED("snow3g-f8-1-buffer-bit", CALLN("snow3g_f8_1_buffer_bit", m->snow3g_f8_1_buffer_bit, A(&sk), A(iv), A(io), A(io), A(bits), A(off)));
+                                n_eval++;
+                                if (!bit_expect_ok(before, io, before, ks, off, bits, tb, 1))
+                                        viol("snow3g-f8-1-buffer-bit", "output-differs", "in place: bits [off, off+len) must be in ^ keystream and every other bit unchanged (x = bits, y = offset)", bits, off);
                         }
                 }
         /* KASUMI F9 with unformatted message: COUNT||FRESH (iv), message bits, direction */
